@@ -364,6 +364,75 @@ func runC18(p *Program, r *Result) {
 			r.Unk(skt.String(), "decode:whole-blob", "", "no base64 decoding of the key blob found")
 		}
 	}
+
+	// ---- R18.8 the key type that excuses a line is the beginning of the line the dispatcher saw
+	r.Rule("R18.8", "the SSH key type that lets a line be skipped is the leading field of the very line the recipient parser refused", 2)
+	if skt := r.anchor(pkgCmdAge, "", "sshKeyType"); skt != nil {
+		stb := p.TB(skt)
+		n := 0
+		for _, b := range skt.Blocks {
+			ret, ok := b.Instrs[len(b.Instrs)-1].(*ssa.Return)
+			if !ok || len(ret.Results) != 2 {
+				continue
+			}
+			if k, isK := ret.Results[1].(*ssa.Const); isK && k.Value != nil && k.Value.String() == "false" {
+				continue
+			}
+			n++
+			t := stb.Term(ret.Results[0])
+			r.Check(leadingPieceOf(t, "P1"), skt.String(), "type:leading-field", r.pos(ret), "the reported type is "+short(t.String()), "the type taken for the line's key type ("+short(t.String())+") is not the text the line begins with (split at a separator, nothing trimmed or collapsed): the recipient parser dispatches on the untouched line, so a damaged line of a supported type can pass for an unsupported key and be skipped instead of failing the file")
+		}
+		if n == 0 {
+			r.Unk(skt.String(), "type:leading-field", "", "no return of a key type found")
+		}
+		if prf := r.anchor(pkgCmdAge, "", "parseRecipientsFile"); prf != nil {
+			ptb := p.TB(prf)
+			var parsed, typed []string
+			pos := ""
+			for _, c := range callsIn(prf) {
+				switch calleeName(c.Common()) {
+				case pkgCmdAge + ".parseRecipient":
+					parsed = append(parsed, ptb.Term(c.Common().Args[0]).String())
+				case pkgCmdAge + ".sshKeyType":
+					typed = append(typed, ptb.Term(c.Common().Args[0]).String())
+					pos = r.pos(c)
+				}
+			}
+			same := len(typed) > 0 && len(parsed) > 0
+			for _, t := range typed {
+				found := false
+				for _, q := range parsed {
+					found = found || q == t
+				}
+				same = same && found
+			}
+			if len(typed) == 0 {
+				r.OK(prf.String(), "type:same-line", "", "no line is excused by its SSH key type")
+			} else {
+				r.Check(same, prf.String(), "type:same-line", pos, "sshKeyType sees the line that parseRecipient refused", "sshKeyType is given another text ("+short(strings.Join(typed, ", "))+") than the recipient parser ("+short(strings.Join(parsed, ", "))+")")
+			}
+		}
+	}
+}
+
+// leadingPieceOf: t is what the named parameter begins with, up to a separator or a position:
+// Elem(strings.Split/SplitN(P, sep..), 0), strings.Cut(P, sep).0, Slice(P, nil|0, x).
+func leadingPieceOf(t *Term, param string) bool {
+	if t == nil {
+		return false
+	}
+	isP := func(x *Term) bool { return x != nil && x.String() == param }
+	switch {
+	case t.Op == "Elem" && len(t.Args) == 2 && t.Args[1] != nil && t.Args[1].String() == "0":
+		c := t.Args[0]
+		if c != nil && c.Op == "Call" && (c.S == "strings.Split" || c.S == "strings.SplitN") && len(c.Args) >= 2 {
+			return isP(c.Args[0])
+		}
+	case t.Op == "Slice" && len(t.Args) >= 2 && isP(t.Args[0]):
+		return t.Args[1] == nil || t.Args[1].String() == "0"
+	}
+	s := t.String()
+	return strings.HasPrefix(s, "strings.Cut("+param+", ") && strings.HasSuffix(s, ").0")
 }
 
 // checkLimitDetection: every io.LimitReader / io.LimitedReader in front of a
